@@ -62,10 +62,26 @@ def plain_copy(sig):
 
 
 def fname(f):
+    import functools
     try:
-        return getattr(f, '__qualname__', None) or getattr(f, '__name__', None) or repr(f)
+        if isinstance(f, functools.partial):
+            return 'partial(%s)' % fname(f.func)
+        name = getattr(f, '__qualname__', None) or getattr(f, '__name__', None)
+        if name:
+            return name
+        return '<%s object>' % type(f).__name__
     except Exception:
         return '<%s>' % type(f).__name__
+
+
+def ident(f):
+    """Identity of a callable for provenance comparison: bound methods are
+    created afresh on every attribute access, so they are identified by
+    (instance, function)."""
+    import types
+    if isinstance(f, types.MethodType):
+        return ('method', id(f.__self__), id(f.__func__))
+    return id(f)
 
 
 def sources_view(sig):
@@ -91,8 +107,8 @@ def sources_view(sig):
 def src_as_sets(sig):
     """sources map as {name: frozenset(ids)} + depths {id: depth} (order/dups ignored)."""
     src = sig.sources
-    names = {k: frozenset(id(f) for f in v) for k, v in src.items() if k != '+depths'}
-    depths = {id(f): d for f, d in src.get('+depths', {}).items()}
+    names = {k: frozenset(ident(f) for f in v) for k, v in src.items() if k != '+depths'}
+    depths = {ident(f): d for f, d in src.get('+depths', {}).items()}
     return names, depths
 
 
